@@ -74,15 +74,15 @@ Qed.
 (* well-formed leaf of any exponent, holding n entries *)
 Definition leaf_okp (lf : @leaf R) (n : nat) : Prop :=
   match lf with
-  | LTensor _ zd w p => zd = false /\ pvalid p /\ tw_ok n (t_weight w)
-  | LDiscr _ axes w p => pvalid p /\ tw_ok n (d_weight axes w p) /\ Forall ax_ok axes /\ n = npoints axes
+  | LTensor w p => pvalid p /\ tw_ok n (t_weight w)
+  | LDiscr axes w p => pvalid p /\ tw_ok n (d_weight axes w p) /\ Forall ax_ok axes /\ n = npoints axes
   end.
-Definition leaf_expo (lf : @leaf R) : expo := match lf with LTensor _ _ _ p | LDiscr _ _ _ p => p end.
+Definition leaf_expo (lf : @leaf R) : expo := match lf with LTensor _ p | LDiscr _ _ p => p end.
 (* the tensor-space weight vector alone (what p = inf uses) *)
 Definition leaf_tw (lf : @leaf R) (n : nat) : Rvec :=
   match lf with
-  | LTensor _ _ w _ => tw_vec n (t_weight w)
-  | LDiscr _ axes w p => tw_vec n (d_weight axes w p)
+  | LTensor w _ => tw_vec n (t_weight w)
+  | LDiscr axes w p => tw_vec n (d_weight axes w p)
   end.
 (* the documented norm of a leaf *)
 Definition leaf_norm_v (q : quirks) (lf : @leaf R) (x : Rvec) : R :=
@@ -93,8 +93,8 @@ Definition leaf_norm_v (q : quirks) (lf : @leaf R) (x : Rvec) : R :=
 
 Lemma leaf_w_okp q lf n : leaf_okp lf n -> Forall (fun c => 0 < c) (leaf_w q lf n) /\ length (leaf_w q lf n) = n.
 Proof.
-  destruct lf as [blas zd w p | blas axes w p]; cbn [leaf_okp leaf_w].
-  - intros (_ & _ & Hw). split; [apply tw_vec_pos | apply tw_vec_length]; assumption.
+  destruct lf as [w p | axes w p]; cbn [leaf_okp leaf_w].
+  - intros (_ & Hw). split; [apply tw_vec_pos | apply tw_vec_length]; assumption.
   - intros (_ & Hw & Hax & Hn). destruct (unif_weighted q axes (d_weight axes w p) p).
     + split; [apply tw_vec_pos | apply tw_vec_length]; assumption.
     + split.
@@ -104,8 +104,8 @@ Proof.
 Qed.
 Lemma leaf_tw_okp lf n : leaf_okp lf n -> Forall (fun c => 0 < c) (leaf_tw lf n) /\ length (leaf_tw lf n) = n.
 Proof.
-  destruct lf as [blas zd w p | blas axes w p]; cbn [leaf_okp leaf_tw].
-  - intros (_ & _ & Hw). split; [apply tw_vec_pos | apply tw_vec_length]; assumption.
+  destruct lf as [w p | axes w p]; cbn [leaf_okp leaf_tw].
+  - intros (_ & Hw). split; [apply tw_vec_pos | apply tw_vec_length]; assumption.
   - intros (_ & Hw & _). split; [apply tw_vec_pos | apply tw_vec_length]; assumption.
 Qed.
 
@@ -119,11 +119,11 @@ Lemma unif_inf q axes (tw : @tweight R) : unif_weighted q axes tw PInf = true.
 Proof. unfold unif_weighted. cbn [isinf]. rewrite orb_true_r. reflexivity. Qed.
 
 (* norm of the scaled array = documented weighted norm of the original array *)
-Lemma discr_scaled_norm q blas axes w p (x : Rvec) :
-  leaf_okp (LDiscr blas axes w p) (length x) ->
+Lemma discr_scaled_norm q axes w p (x : Rvec) :
+  leaf_okp (LDiscr axes w p) (length x) ->
   t_norm_v (d_weight axes w p) p
     (if unif_weighted q axes (d_weight axes w p) p then x else scale_bdry (frac_root p) axes x)
-  = leaf_norm_v q (LDiscr blas axes w p) x.
+  = leaf_norm_v q (LDiscr axes w p) x.
 Proof.
   intros (Hp & Hw & Hax & Hn). unfold leaf_norm_v. cbn [leaf_expo leaf_tw leaf_w].
   destruct p as [|k].
@@ -137,41 +137,31 @@ Proof.
     unfold wnorm_p. rewrite Hl. f_equal. apply wpsum_shift. apply bdry_w_root; assumption.
 Qed.
 
-Theorem leaf_norm_value q lf (x : Rvec) : leaf_okp lf (length x) -> x <> [] ->
+Theorem leaf_norm_value q lf (x : Rvec) : leaf_okp lf (length x) ->
   leaf_norm q lf x = Ok (leaf_norm_v q lf x).
 Proof.
-  intros Hok Hne. destruct lf as [blas zd w p | blas axes w p].
-  - destruct Hok as (-> & Hp & Hw). cbn [leaf_norm andb]. rewrite t_norm_ok by assumption.
+  intros Hok. destruct lf as [w p | axes w p].
+  - destruct Hok as (Hp & Hw). cbn [leaf_norm]. rewrite t_norm_ok.
     rewrite t_norm_v_as_wnorm by assumption. unfold leaf_norm_v. cbn [leaf_expo leaf_tw leaf_w]. destruct p; reflexivity.
-  - pose proof (discr_scaled_norm q blas axes w p x Hok) as E.
-    destruct Hok as (Hp & Hw & Hax & Hn).
-    cbn [leaf_norm]. destruct (unif_weighted q axes (d_weight axes w p) p).
-    + rewrite t_norm_ok by assumption. f_equal. exact E.
-    + rewrite t_norm_ok; [f_equal; exact E|].
-      unfold scale_bdry. intros Hz. apply (f_equal (@length R)) in Hz.
-      rewrite vmul_length in Hz by (rewrite bdry_w_length; assumption). destruct x; [congruence | cbn in Hz; lia].
+  - pose proof (discr_scaled_norm q axes w p x Hok) as E.
+    cbn [leaf_norm]. destruct (unif_weighted q axes (d_weight axes w p) p); rewrite t_norm_ok; f_equal; exact E.
 Qed.
 
 (* dist(x, y) = norm(x - y) on every leaf, including the discretized path that scales x and y separately *)
-Theorem leaf_dist_value q lf (x y : Rvec) : leaf_okp lf (length x) -> x <> [] -> length y = length x ->
+Theorem leaf_dist_value q lf (x y : Rvec) : leaf_okp lf (length x) -> length y = length x ->
   leaf_dist q lf x y = Ok (leaf_norm_v q lf (vsub x y)).
 Proof.
-  intros Hok Hne Hl.
+  intros Hok Hl.
   assert (Hls : length (vsub x y) = length x) by (apply vsub_length; congruence).
-  assert (Hnes : vsub x y <> []) by (destruct x; [congruence|]; destruct y; [cbn in Hl; lia | cbn; congruence]).
-  destruct lf as [blas zd w p | blas axes w p].
-  - destruct Hok as (-> & Hp & Hw). cbn [leaf_dist andb]. rewrite t_dist_ok by assumption.
+  destruct lf as [w p | axes w p].
+  - destruct Hok as (Hp & Hw). cbn [leaf_dist]. rewrite t_dist_ok.
     rewrite t_norm_v_as_wnorm by (rewrite ?Hls; assumption).
     unfold leaf_norm_v. cbn [leaf_expo leaf_tw leaf_w]. destruct p; reflexivity.
-  - assert (Hok' : leaf_okp (LDiscr blas axes w p) (length (vsub x y))) by (rewrite Hls; exact Hok).
-    pose proof (discr_scaled_norm q blas axes w p (vsub x y) Hok') as E.
-    destruct Hok as (Hp & Hw & Hax & Hn).
+  - assert (Hok' : leaf_okp (LDiscr axes w p) (length (vsub x y))) by (rewrite Hls; exact Hok).
+    pose proof (discr_scaled_norm q axes w p (vsub x y) Hok') as E.
     cbn [leaf_dist]. destruct (unif_weighted q axes (d_weight axes w p) p).
-    + rewrite t_dist_ok by assumption. f_equal. exact E.
-    + unfold scale_bdry in *. rewrite t_dist_ok; rewrite vsub_vmul_distr; [f_equal; exact E|].
-      intros Hz. apply (f_equal (@length R)) in Hz.
-      rewrite vmul_length in Hz by (rewrite bdry_w_length, Hls; assumption).
-      rewrite Hls in Hz. destruct x; [congruence | cbn in Hz; lia].
+    + rewrite t_dist_ok. f_equal. exact E.
+    + unfold scale_bdry in *. rewrite t_dist_ok, vsub_vmul_distr. f_equal. exact E.
 Qed.
 
 (* homogeneity and triangle inequality for every leaf and every exponent *)
